@@ -64,6 +64,36 @@ pub struct Preempt {
     sim: SimDirectory,
 }
 
+type GateFn = Arc<dyn Fn(&OpDesc) + Send + Sync>;
+/// gate for the named in-memory hook points of /repo (`verif_hooks::point`): they are preemption points too;
+/// the k-th point reached by logical thread T is addressed as thread "T@", index k
+static POINT_GATE: Mutex<Option<GateFn>> = Mutex::new(None);
+static POINT_COUNTS: Mutex<std::collections::BTreeMap<String, usize>> = Mutex::new(std::collections::BTreeMap::new());
+
+pub fn reset_points() {
+    POINT_COUNTS.lock().unwrap().clear();
+}
+
+/// hook points reached so far per logical thread (keys carry the "@" suffix)
+pub fn point_counts() -> std::collections::BTreeMap<String, usize> {
+    POINT_COUNTS.lock().unwrap().clone()
+}
+
+fn at_point(name: &'static str) {
+    let tid = format!("{}@", crate::simdir::current_tid());
+    let idx = {
+        let mut c = POINT_COUNTS.lock().unwrap();
+        let e = c.entry(tid.clone()).or_insert(0);
+        let v = *e;
+        *e += 1;
+        v
+    };
+    let g = POINT_GATE.lock().unwrap().clone();
+    if let Some(g) = g {
+        g(&OpDesc { tid, kind: "point", path: name.to_string(), global_index: 0, thread_index: idx });
+    }
+}
+
 impl Preempt {
     /// arms the gate: the `at`-th storage operation (per-thread index as counted by SimDirectory) of thread
     /// `target` is preceded by `action`
@@ -71,13 +101,16 @@ impl Preempt {
         let inner = Arc::new(PInner { target: target.to_string(), at, action: Mutex::new(Some(action)), st: Mutex::new(PState::default()), cv: Condvar::new(), park_limit: Duration::from_millis(300) });
         *ACTIVE.lock().unwrap() = Some(inner.clone());
         let g = inner.clone();
-        sim.set_gate(Some(Arc::new(move |d: &OpDesc| gate(&g, d))));
+        let f: GateFn = Arc::new(move |d: &OpDesc| gate(&g, d));
+        sim.set_gate(Some(f.clone()));
+        *POINT_GATE.lock().unwrap() = Some(f);
         Preempt { inner, sim: sim.clone() }
     }
 
     /// waits for the action (if it was started), removes the gate
     pub fn finish(self) -> Outcome {
         self.sim.set_gate(None);
+        *POINT_GATE.lock().unwrap() = None;
         let h = self.inner.st.lock().unwrap().handle.take();
         if let Some(h) = h {
             let _ = h.join();
@@ -129,6 +162,13 @@ fn gate(p: &Arc<PInner>, d: &OpDesc) {
 /// history engine's counters.
 pub struct PreemptHandler;
 
+static MERGE_ENDS: std::sync::atomic::AtomicU64 = std::sync::atomic::AtomicU64::new(0);
+
+/// number of times a merge thread reached the point where it asks the updater to publish its result
+pub fn merge_ends() -> u64 {
+    MERGE_ENDS.load(std::sync::atomic::Ordering::SeqCst)
+}
+
 static FLUSH: std::sync::atomic::AtomicU32 = std::sync::atomic::AtomicU32::new(0);
 
 /// segment cut after n documents (0 / None = off) for the scenarios
@@ -149,12 +189,16 @@ impl tantivy::verif_hooks::VerifHandler for PreemptHandler {
     }
     fn point(&self, name: &'static str) {
         use std::sync::atomic::Ordering::SeqCst;
+        at_point(name);
         match name {
             "merge:scheduled" => {
                 crate::hist::MERGES_SCHEDULED.fetch_add(1, SeqCst);
             }
             "merge:done" => {
                 crate::hist::MERGES_DONE.fetch_add(1, SeqCst);
+            }
+            "merge:end" => {
+                MERGE_ENDS.fetch_add(1, SeqCst);
             }
             _ => {}
         }
